@@ -2,6 +2,7 @@ package main
 
 import (
 	"fmt"
+	"go/token"
 	"go/types"
 	"sort"
 	"strings"
@@ -53,6 +54,7 @@ func checkC03(w *World, c *Check, tier string) {
 	c.floor("C03.RW", 300)
 	c.floor("C03.flag", 20)
 	checkFlagDiscipline(w, c, "C03.flag", nil)
+	checkGobObjectRecognition(w, c)
 	for _, s := range w.TaggedStructs() {
 		gt := t.gobTableFor(s)
 		missing := []string{}
@@ -398,3 +400,93 @@ func gobKindsCompatible(a, b string) bool {
 }
 
 var _ = sort.Strings
+
+// checkGobObjectRecognition (C03.recognise): the item decoder first tries lists and IRI lists, then a property map; the
+// bytes are an object exactly when they decode as a property map that holds something. The decision whether to build
+// an object from the map (the call of the type registry hook) must therefore not hinge on the presence of PARTICULAR
+// keys: embedded objects may carry neither "type" nor "id" (a tag with only a name, an attachment with only a url) and
+// are then taken for an IRI made of the raw gob bytes.
+func checkGobObjectRecognition(w *World, c *Check) {
+	d := w.Func("gobDecodeItem")
+	if d == nil {
+		c.bad("C03.recognise", "anchor", "-", "gobDecodeItem not found")
+		return
+	}
+	var fns []*ssa.Function
+	fns = append(fns, d)
+	for _, call := range callsIn(d) {
+		if g := call.Common().StaticCallee(); g != nil && w.InPkg(g) && g.Blocks != nil {
+			fns = append(fns, g)
+		}
+	}
+	n := 0
+	for _, f := range fns {
+		for _, tc := range callsThroughGlobalIn(w, f, "ItemTyperFunc") {
+			n++
+			var keyed []string
+			for _, g := range rawGuards(tc.Block()) {
+				if k := presenceOfKey(g.cond, 0, map[ssa.Value]bool{}); k != "" {
+					keyed = append(keyed, k)
+				}
+			}
+			key := funcName(f) + ":typer-call"
+			if len(keyed) > 0 {
+				sort.Strings(keyed)
+				c.bad("C03.recognise", key, w.InstrPos(tc), fmt.Sprintf("whether the decoded property map is turned into an object depends on the presence of the key(s) %v: an embedded object that has neither (only a name, a url, a summary …) is not recognised and comes back as an IRI holding the raw gob bytes", uniq(keyed)))
+			} else {
+				c.ok("C03.recognise", key, w.InstrPos(tc), "the registry is consulted for every property map that decoded; no particular key is required")
+			}
+		}
+	}
+	if n == 0 {
+		c.bad("C03.recognise", "typer-call", w.FuncPos(d), "gobDecodeItem no longer obtains the value to fill from ItemTyperFunc (undecided)")
+	}
+}
+
+// presenceOfKey: cond derives (through phis and negations) from the ok result of a comma-ok lookup of a constant key
+// in a gob property map: returns the key.
+func presenceOfKey(v ssa.Value, depth int, seen map[ssa.Value]bool) string {
+	if v == nil || depth > 8 || seen[v] {
+		return ""
+	}
+	seen[v] = true
+	switch x := v.(type) {
+	case *ssa.Extract:
+		if lk, ok := x.Tuple.(*ssa.Lookup); ok && lk.CommaOk && x.Index == 1 && isGobMap(lk.X.Type()) {
+			if k, ok := constString(lk.Index); ok {
+				return fmt.Sprintf("%q", k)
+			}
+			return "<computed key>"
+		}
+	case *ssa.Phi:
+		var ks []string
+		for _, e := range x.Edges {
+			if k := presenceOfKey(e, depth+1, seen); k != "" {
+				ks = append(ks, k)
+			}
+		}
+		if len(ks) > 0 {
+			sort.Strings(ks)
+			return strings.Join(uniq(ks), "/")
+		}
+	case *ssa.UnOp:
+		if x.Op == token.NOT {
+			return presenceOfKey(x.X, depth+1, seen)
+		}
+		if x.Op == token.MUL {
+			if al, ok := x.X.(*ssa.Alloc); ok {
+				for _, st := range storesTo(al) {
+					if k := presenceOfKey(st.Val, depth+1, seen); k != "" {
+						return k
+					}
+				}
+			}
+		}
+	case *ssa.BinOp:
+		if k := presenceOfKey(x.X, depth+1, seen); k != "" {
+			return k
+		}
+		return presenceOfKey(x.Y, depth+1, seen)
+	}
+	return ""
+}
